@@ -48,10 +48,14 @@ def configs(tier, seed):
         _cfg((129, 2, 2), "uint8", ["--downscaling-method", "majority", "--type", "segmentation", "--no-gzip"]),
         _cfg((131, 2, 1), "uint8", ["--downscaling-method", "stride"]),
         _cfg((130, 2, 2), "uint8", ["--downscaling-method", "average", "--outside-value", "5"]),
-        _cfg((130, 2, 1), "uint8", ["--encoding", "compressed_segmentation", "--type", "segmentation"], two_labels=True, cost=8),
+        _cfg((66, 2, 1), "uint8", ["--encoding", "compressed_segmentation", "--type", "segmentation"], two_labels=True, cost=8),
         _cfg((64, 3, 2), "uint16", []),                                                # single scale
         _cfg((130, 2, 3), "uint8", ["--downscaling-method", "stride"], vs=[1.0, 1.0, 4.0]),   # anisotropic: chunk sizes change between scales
         _cfg((70, 131, 2), "uint16", ["--downscaling-method", "average"], vs=[2.0, 1.0, 1.0]),
+        # header scaling (0.5 v + 10) with the value-mapping options of the volume-reading steps
+        _cfg((3, 2, 2), "uint8", [], scaling=[0.5, 10.0], conv_opts=["--ignore-scaling", "--input-min", "0", "--input-max", "256"]),
+        _cfg((3, 2, 1), "int16", [], scaling=[0.5, 10.0], conv_opts=["--input-min", "0", "--input-max", "128"]),
+        _cfg((2, 2, 2), "uint8", ["--flat"], scaling=[0.5, 10.0], conv_opts=["--ignore-scaling"]),
     ]
     if tier == "thorough":
         out += [_cfg((260, 2, 1), "uint8", ["--downscaling-method", "average"]), _cfg((130, 130, 1), "uint8", ["--flat", "--no-gzip"], cost=20),
@@ -144,7 +148,12 @@ def H_pipeline(ctx, cfg):
     for fid, expr in regions_for(PROPERTY, "pipeline"):
         ctx.region(fid, builtins.bool(eval(expr, {"cfg": cfg})))
     affine = real_np.diag(list(cfg.get("vs", [2.0, 2.0, 2.0])) + [1.0])
-    W.images["/in/vol.nii"] = V.FakeImage(vol, affine=affine)
+    sl, it = cfg.get("scaling") or (None, None)
+    conv_o = list(cfg.get("conv_opts", []))       # options of the volume-reading steps (--ignore-scaling, --input-min/max)
+
+    def fresh_image():
+        return V.FakeImage(vol, affine=affine, slope=sl, inter=it)      # every command loads the file anew
+    W.images["/in/vol.nii"] = fresh_image()
     acc_o, gen_o, comp_o = _split_opts(opts)
     pyr = W.script("volume_to_precomputed_pyramid", nibabel=W.nibabel)
     v2p = W.script("volume_to_precomputed")
@@ -153,14 +162,17 @@ def H_pipeline(ctx, cfg):
     st = W.script("scale_stats", print=lambda *a, **k: None)
     p1, p2 = "/mfs/p1", "/mfs/p2"
     # ---- P1: all-in-one
-    W.images["/in/vol.nii"] = V.FakeImage(vol, affine=affine)
-    _run(ctx, W, pyr, ["prog", "/in/vol.nii", p1] + opts, "all-in-one")
+    W.images["/in/vol.nii"] = fresh_image()
+    _run(ctx, W, pyr, ["prog", "/in/vol.nii", p1] + opts + conv_o, "all-in-one")
     # ---- P2: documented sequence
-    W.images["/in/vol.nii"] = V.FakeImage(vol, affine=affine)
-    _run(ctx, W, v2p, ["prog", "/in/vol.nii", p2, "--generate-info"] + acc_o, "generate-info")
+    W.images["/in/vol.nii"] = fresh_image()
+    rc_info = _run(ctx, W, v2p, ["prog", "/in/vol.nii", p2, "--generate-info"] + acc_o + conv_o, "generate-info", expect_ok=not conv_o)
+    if conv_o:
+        # with --input-max the values are float64: the tool picks float32 and says so with exit status 4 (documented)
+        ctx.prove(rc_info in (0, 4), "generate-info-exit-status-0-or-4", detail=str(rc_info))
     _run(ctx, W, gsi, ["prog", p2 + "/info_fullres.json", p2] + gen_o, "generate-scales-info")
-    W.images["/in/vol.nii"] = V.FakeImage(vol, affine=affine)
-    _run(ctx, W, v2p, ["prog", "/in/vol.nii", p2] + acc_o, "convert-volume")
+    W.images["/in/vol.nii"] = fresh_image()
+    _run(ctx, W, v2p, ["prog", "/in/vol.nii", p2] + acc_o + conv_o, "convert-volume")
     _run(ctx, W, cs_, ["prog", p2] + acc_o + comp_o, "compute-scales")
     ropts = dict(flat="--flat" in opts, gzip="--no-gzip" not in opts)
     i1, l1 = _decode_all(ctx, W, p1, "all-in-one", ropts)
@@ -175,8 +187,8 @@ def H_pipeline(ctx, cfg):
         if ok:
             ctx.prove(z3.And([V.eq_elems(x, y) for x, y in zip(a.ravel(), b.ravel())]), f"scale-{li}-decodes-to-the-same-voxels")
     # ---- repeatability: run the data-writing steps again on their own output
-    W.images["/in/vol.nii"] = V.FakeImage(vol, affine=affine)
-    _run(ctx, W, v2p, ["prog", "/in/vol.nii", p2] + acc_o, "convert-volume-again")
+    W.images["/in/vol.nii"] = fresh_image()
+    _run(ctx, W, v2p, ["prog", "/in/vol.nii", p2] + acc_o + conv_o, "convert-volume-again")
     _run(ctx, W, cs_, ["prog", p2] + acc_o + comp_o, "compute-scales-again")
     _, l3 = _decode_all(ctx, W, p2, "after-repeat", ropts)
     if l3 is not None:
@@ -240,7 +252,12 @@ def replay(cfg, cex):
     acc_o, gen_o, comp_o = _split_opts(opts)
     with tempfile.TemporaryDirectory() as td:
         fn = os.path.join(td, "vol.nii")
-        nibabel.save(nibabel.Nifti1Image(vol, real_np.diag(list(cfg.get("vs", [2.0, 2.0, 2.0])) + [1.0])), fn)
+        img = nibabel.Nifti1Image(vol, real_np.diag(list(cfg.get("vs", [2.0, 2.0, 2.0])) + [1.0]))
+        if cfg.get("scaling"):
+            img.header.set_data_dtype(dtype)
+            img.header.set_slope_inter(*cfg["scaling"])
+        nibabel.save(img, fn)
+        conv_o = list(cfg.get("conv_opts", []))
         p1, p2 = os.path.join(td, "p1"), os.path.join(td, "p2")
 
         def run(mod, argv):
@@ -250,16 +267,18 @@ def replay(cfg, cex):
                 return e.code
             except Exception as e:
                 return f"{type(e).__name__}: {e}"
-        steps = [(pyr, ["prog", fn, p1] + opts), (v2p, ["prog", fn, p2, "--generate-info"] + acc_o),
-                 (gsi, ["prog", os.path.join(p2, "info_fullres.json"), p2] + gen_o), (v2p, ["prog", fn, p2] + acc_o),
+        steps = [(pyr, ["prog", fn, p1] + opts + conv_o), (v2p, ["prog", fn, p2, "--generate-info"] + acc_o + conv_o),
+                 (gsi, ["prog", os.path.join(p2, "info_fullres.json"), p2] + gen_o), (v2p, ["prog", fn, p2] + acc_o + conv_o),
                  (cs_, ["prog", p2] + acc_o + comp_o)]
         toggled = [o for o in acc_o if o != "--no-gzip"] + ([] if "--no-gzip" in acc_o else ["--no-gzip"])
-        steps += [(v2p, ["prog", fn, p2] + acc_o), (cs_, ["prog", p2] + acc_o + comp_o), (cs_, ["prog", p2] + toggled + comp_o)]
+        steps += [(v2p, ["prog", fn, p2] + acc_o + conv_o), (cs_, ["prog", p2] + acc_o + comp_o), (cs_, ["prog", p2] + toggled + comp_o)]
         cc_ = load.mod("scripts.convert_chunks")
         p3 = os.path.join(td, "p3")
         steps += [(cc_, ["prog", p2, p3, "--copy-info"] + acc_o), (cc_, ["prog", p2, p3] + acc_o)]
         for mod, argv in steps:
             rc = run(mod, argv)
+            if rc == 4 and conv_o and "--generate-info" in argv:
+                continue         # float values: float32 chosen, reported with exit status 4
             if rc != 0:
                 return True, f"{mod.__name__.rsplit('.', 1)[1]} {argv[2:]} exited with {rc}"
         ropts = dict(flat="--flat" in opts, gzip="--no-gzip" not in opts)
